@@ -295,8 +295,8 @@ func (s StmtInfo) Stratum() string {
 	if i := strings.Index(site, "<-"); i > 0 {
 		// innermost<-caller: keep both
 		parts := strings.Split(site, "<-")
-		if len(parts) > 2 {
-			parts = parts[:2]
+		if len(parts) > 3 {
+			parts = parts[:3]
 		}
 		site = strings.Join(parts, "<-")
 	}
